@@ -1422,7 +1422,8 @@ func (b Builder) BuiltinCall(fn string, args ...Expr) (ret Expr) {
 	case "imag":
 		return b.getField(args[0], 1)
 	case "String": // unsafe.String
-		return b.unsafeString(args[0].impl, args[1].impl)
+		size := b.FitIntSize(args[1])
+		return b.unsafeString(args[0].impl, size.impl)
 	case "Slice": // unsafe.Slice
 		size := b.FitIntSize(args[1])
 		return b.unsafeSlice(args[0], size.impl, size.impl)
